@@ -236,7 +236,7 @@ func firstLine(s string) string {
 func init() {
 	Register(&Prop{
 		ID:    "C02",
-		Rule:  "one execution = one (skeleton, mode, ≤k focus units each ranging over its full configuration×input alphabet, field visit order at every struct visit) case; all other units are plain (optional, one passing recording test, valid input); non-trivial = at least one unit deviates from plain; distinct = distinct (skeleton, mode, expected issue multiset). plus " + callsRule,
+		Rule:  "one execution = one (skeleton, mode, ≤k focus units each ranging over its full configuration×input alphabet — tests {t2 | t1,t2 | none | t1 filed by IssuePath under one path shared by all such nodes, t2} —, field visit order at every struct visit) case; all other units are plain (optional, one passing recording test, valid input); non-trivial = at least one unit deviates from plain; distinct = distinct (skeleton, mode, expected issue multiset). plus " + callsRule,
 		Floor: 50,
 		Bound: func(tier string) string {
 			k, e := coreK(tier)
@@ -247,7 +247,7 @@ func init() {
 			"order of issues within one map key is compared as a multiset; $first is excluded (C10 checks it)",
 		},
 		Items: func(tier string) []Item {
-			items := coreItems(tier, c02Scenario, nil, []int{0, 1}, 0)
+			items := coreItems(tier, c02Scenario, func(a *Alpha) { a.PathOpt = true }, []int{0, 1}, 0)
 			// the issues a caller holds are exactly the violations, also after later and overlapping executions
 			return append(items, callsItems(tier, "C02", "clean-despite-violation", "depends-on-history", "nested-call-differs", "earlier-result-changed", "schema-modified", "panic")...)
 		},
